@@ -1,5 +1,7 @@
 package symgo
 
+import "fmt"
+
 // Time model: a time.Time produced by the model carries its instant as int64 nanoseconds in the `ext` field
 // (wall = 0, loc = nil). time.Now returns arbitrary non-decreasing instants (fresh solver variables).
 // The real Time.Add/Sub divide by 1e9, which no available solver finishes; every method that reads the
@@ -69,4 +71,69 @@ func init() {
 		return in.tb.Bin(OpSub, in.timeNS(a[0]), in.timeNS(now))
 	})
 	reg("time.Sleep", func(in *Exec, _ *frame, a []value) value { return nil })
+}
+
+func init() {
+	ident := func(in *Exec, _ *frame, a []value) value { return a[0] }
+	reg("(time.Time).UTC", ident)
+	reg("(time.Time).Local", ident)
+	reg("(time.Time).Round", ident)
+	reg("(time.Time).Truncate", ident)
+	opaque := func(in *Exec, _ *frame, a []value) value { return in.opaqueStr() }
+	reg("(time.Time).String", opaque)
+	reg("(time.Time).Format", opaque)
+	reg("(time.Time).GoString", opaque)
+	reg("(time.Duration).String", func(in *Exec, _ *frame, a []value) value {
+		if t := a[0].(*Term); t.IsConst() {
+			return notHandled{}
+		}
+		return in.opaqueStr()
+	})
+
+	// crypto/rand: arbitrary bytes (fresh solver variables), never an error
+	fill := func(in *Exec, b []value) {
+		for i := range b {
+			b[i] = in.freshVar("rand", 8)
+		}
+	}
+	reg("crypto/rand.Read", func(in *Exec, _ *frame, a []value) value {
+		b := a[0].([]value)
+		fill(in, b)
+		return tuple{in.intConst(int64(len(b))), iface{}}
+	})
+	reg("(*crypto/rand.reader).Read", func(in *Exec, _ *frame, a []value) value {
+		b := a[1].([]value)
+		fill(in, b)
+		return tuple{in.intConst(int64(len(b))), iface{}}
+	})
+}
+
+// Calendar fields of a model time are uninterpreted functions of the instant: one fresh variable per distinct
+// instant term, constrained to the field's range (any weekday/hour is possible for an arbitrary clock).
+func (in *Exec) calendarField(name string, ns *Term, lo, hi int64) *Term {
+	key := fmt.Sprintf("cal:%s:%d", name, ns.ID)
+	if v, ok := in.ghost[key]; ok {
+		return v.(*Term)
+	}
+	v := in.freshVar(name, 64)
+	in.assume(in.tb.And(in.tb.Sle(in.intConst(lo), v), in.tb.Sle(v, in.intConst(hi))))
+	in.ghost[key] = v
+	return v
+}
+
+func init() {
+	reg("(time.Time).Weekday", func(in *Exec, _ *frame, a []value) value {
+		w, e, _ := timeParts(a[0])
+		if w.IsConst() && e.IsConst() && !(w.V == 0 && e.V != 0) {
+			return notHandled{} // a concrete real time.Time
+		}
+		return in.calendarField("weekday", in.timeNS(a[0]), 0, 6)
+	})
+	reg("(time.Time).Hour", func(in *Exec, _ *frame, a []value) value {
+		w, e, _ := timeParts(a[0])
+		if w.IsConst() && e.IsConst() && !(w.V == 0 && e.V != 0) {
+			return notHandled{}
+		}
+		return in.calendarField("hour", in.timeNS(a[0]), 0, 23)
+	})
 }
